@@ -532,6 +532,8 @@ def _storage_wrapper(env: Env, op: str, orig: Callable[..., Any]) -> Callable[..
             raise directive.make(what)
         res: Any = None
         err: Optional[BaseException] = None
+        s3log = getattr(getattr(self, "s3", None), "log", None)       # in-memory S3: the requests this call issues
+        n_req0 = len(s3log) if s3log is not None else 0
         ff: Optional[_FsyncFault] = None
         if isinstance(directive, Fault) and directive.when == "sys" and env.backend == "local" and op in ("write_file", "write_file_cas"):
             ff = _FsyncFault(int(str(directive.kind)[-1]))
@@ -577,7 +579,12 @@ def _storage_wrapper(env: Env, op: str, orig: Callable[..., Any]) -> Callable[..
         # virtual mtimes for files written through the backend
         if err is None and op in ("write_file", "write_file_cas") and env.backend == "local":
             _set_vmtime(env, self, path)
+        n_ev0 = len(s.trace)
         _emit_storage_event(env, a, op, cls, path, args, res, err, rctx)
+        if s3log is not None and cls == "hint" and op in ("read_file_with_etag", "write_file_cas") and len(s.trace) > n_ev0:
+            # the specification reads the pointer together with its ETag / writes it conditionally in ONE atomic step:
+            # that is only true of the code if the call is a single S3 request
+            s.trace[-1]["reqs"] = [e_["op"] for e_ in s3log[n_req0:]]
         if err is not None:
             raise err
         if isinstance(directive, Fault) and directive.when == "after":
